@@ -266,7 +266,13 @@ func c04Exec(fl c04Flavor, hist []c04Ev) (string, string, string) {
 			r := ResponseTo(subRelayed, 200, "as-1", WHdr{"Expires", "3600"})
 			w.SendUDP(ua, lst, r.Render())
 			obs := w.Observe()
-			if len(obs.Pkts) != 1 || obs.Pkts[0].To != subBackend {
+			// the backend is reached at its listening address or over the connection it opened itself to send the
+			// SUBSCRIBE (which of the two exists depends on whether the rotation had already dialled this backend)
+			own := ""
+			if c, ok := w.cli["be"+subBackend]; ok {
+				own = c.LocalString()
+			}
+			if len(obs.Pkts) != 1 || (obs.Pkts[0].To != subBackend && obs.Pkts[0].To != own) {
 				return "", "subscribe-response-not-relayed-to-backend", fmt.Sprintf("%s: %s", desc, obs.Summary())
 			}
 			subPinned = subBackend
